@@ -110,6 +110,7 @@ type Exec struct {
 	globals       map[string]uint64
 	nameCount     map[string]int
 	allocCtr      int
+	decrEntry     *Term
 	freshBaseName map[string]string
 }
 
